@@ -40,6 +40,9 @@ type Case struct {
 	Segs     [][]byte // media segments: [styp] (moof mdat)+
 	Frags    []Frag   // all fragments in file order
 	HdrKnown bool     // slice-header lengths are ground truth
+	// SelfCheck: first disagreement between the HEVC serializer of this package and the independent
+	// one of ref/h265 on the values of this case ("" = they agree): the ground truth is then in doubt.
+	SelfCheck string
 }
 
 // File returns init + all segments.
@@ -193,6 +196,12 @@ type Shape struct {
 	// also tiles when read with an 8-byte IV size: sample 1 is one NAL unit of
 	// 2+IVGuess+1 bytes, sample 2 has IVGuess sub-sample entries, sample 3 is clear.
 	IVGuess int
+	// RefPics != nil: extra PRNG stream that switches the HEVC reference-picture shapes on for the
+	// track (B slices, short-term sets with several used pictures before/after the current one,
+	// long-term pictures, PPS lists_modification_present_flag with ref_pic_lists_modification( ),
+	// num_ref_idx overrides, weighted bi-prediction). Everything they add is drawn from this
+	// stream; nil (the default) leaves the generated cases exactly as they are without it.
+	RefPics *runner.Rand
 }
 
 var vclSizeClasses = []string{"5..15", "16", "92..130", "92..130", "1k", "17..91", "131..999"}
@@ -279,7 +288,7 @@ func Generate(r *runner.Rand, sh Shape) (*Case, error) {
 	case "hvc1", "hev1":
 		c.Media = "video"
 		init.AddEmptyTrack(timescale, "video", "und")
-		hp = genHEVCParams(r)
+		hp = genHEVCParamsX(r, sh.RefPics)
 		spss := [][]byte{hp.SPS.NAL}
 		if hp.Decoy != nil {
 			spss = append(spss, hp.Decoy.NAL)
@@ -446,6 +455,9 @@ func Generate(r *runner.Rand, sh Shape) (*Case, error) {
 	}
 	if emptyFrag {
 		c.Traits = append(c.Traits, "empty-fragment")
+	}
+	if hp != nil {
+		c.SelfCheck = hp.SelfCheck
 	}
 	return c, nil
 }
